@@ -19,6 +19,8 @@ def gen_cases(seed, tier):
         c = c06.gen_case(rng, kind="ssa"); c["safe"] = False
         # plain interface: keep consumers mass action so that states stay non-negative
         for rx in c["spec"]["reactions"]:
+            # the plain interface cannot hold back a reaction whose DELAYED part consumes (applied at once here): no delayed reactants
+            if "delay" in rx: rx["delay"]["reactants"] = []
             if rx["reactants"] and rx["type"] != "massaction":
                 rx["type"] = "massaction"; rx["params"] = {"k": rng.choice([0.1, 0.2, 0.5, 1.0])}
         cases.append(c)
